@@ -23,13 +23,40 @@ var replayFc = map[*Obligation]*FnCtx{}
 var replaySpent time.Duration
 
 const (
-	replayModelBudget = 150 * time.Second // model extraction (solver session)
+	replayModelBudget = 150 * time.Second // model extraction per attempt (solver time slices + reading the model)
 	replayTotalBudget = 20 * time.Minute  // all replays of one govc run
+	replayPerViolation = 5 * time.Minute  // no new attempt for a violation after this
 	replayTestBudget  = 360 * time.Second // go test (a cold build of the package's test binary can take minutes; the test itself runs with -timeout 60s)
 )
 
-// genericReplay: model -> inputs -> in-package test of the real function -> reproduced or not.
-func genericReplay(eng *Engine, ob *Obligation, repo, verif string) (reproduced bool, detail map[string]any) {
+// genericReplay: model -> inputs -> in-package test of the real function -> reproduced or not. Candidate models depend on
+// the solver configuration in an unpredictable way, so a configuration whose candidate did not lead to a reproduction is
+// followed by the next one, up to replayPerViolation of wall time.
+func genericReplay(eng *Engine, ob *Obligation, repo, verif string) (bool, map[string]any) {
+	start := time.Now()
+	used := map[string]bool{}
+	var history []string
+	for round := 0; ; round++ {
+		ok, detail := genericReplayOnce(eng, ob, repo, verif, used)
+		solver, _ := detail["model_solver"].(string)
+		if len(history) > 0 {
+			detail["earlier_attempts"] = history
+		}
+		if ok || solver == "" || round >= 3 || time.Since(start) > replayPerViolation || replaySpent > replayTotalBudget {
+			return ok, detail
+		}
+		if _, isCandidate := detail["model_kind"].(string); !isCandidate || !strings.Contains(detail["model_kind"].(string), "candidate") {
+			return ok, detail // a genuine model was replayed: another solver would not change the answer
+		}
+		if n, _ := detail["note"].(string); strings.HasPrefix(n, "the violated clause is not expressible") || strings.HasPrefix(n, "unsupported input kind: closures") {
+			return ok, detail
+		}
+		used[solver] = true
+		history = append(history, fmt.Sprintf("%s: %v", solver, detail["note"]))
+	}
+}
+
+func genericReplayOnce(eng *Engine, ob *Obligation, repo, verif string, skip map[string]bool) (reproduced bool, detail map[string]any) {
 	detail = map[string]any{"generator": "generic"}
 	defer func() {
 		if r := recover(); r != nil {
@@ -94,11 +121,14 @@ func genericReplay(eng *Engine, ob *Obligation, repo, verif string) (reproduced 
 
 	// 1. model extraction
 	deadline := time.Now().Add(replayModelBudget)
+	if replayCompCount[fc] == 0 {
+		replayCompCount[fc] = len(fc.compList)
+	}
+	ground, prefer, nGround := fc.groundPreconditions(spec) // before rendering: it may register new declarations
 	script := fc.renderForReplay(ob, false)
 	light := fc.renderForReplay(ob, true) // for candidate models: without the quantified lemmas of earlier obligations
-	ground, prefer, nGround := fc.groundPreconditions(spec)
 	detail["precondition_instances"] = nGround
-	sess, solver, err := openModelSession(ob, script, light, fc.heapTypingAxioms(false)+ground, fc.heapTypingAxioms(true)+ground, prefer, deadline)
+	sess, solver, err := openModelSession(ob, script, light, fc.heapTypingAxioms(false), fc.heapTypingAxioms(false)+ground, fc.heapTypingAxioms(true)+ground, prefer, deadline, skip)
 	if err != nil {
 		detail["note"] = "model extraction: " + err.Error()
 		return false, detail
@@ -112,6 +142,12 @@ func genericReplay(eng *Engine, ob *Obligation, repo, verif string) (reproduced 
 	m := &modelReader{fc: fc, s: sess, objs: map[string]*rObj{}, blocks: map[string]*rBlock{}}
 	defer func() { m.s.close() }() // shaping may have replaced the session
 	m.wmark = m.getInt("H0_W")
+	if sess.base != "sat" && strings.HasSuffix(solver, "+bare") {
+		// the bare query says nothing about cells the path does not load: ask for a well-typed entry heap now
+		ok := m.shapeCmds(fc.heapTypingAxioms(false))
+		detail["typing_axioms_added_to_bare_candidate"] = ok
+		m.wmark = m.getInt("H0_W")
+	}
 	if sess.base != "sat" {
 		// short quantifier ranges, one preference at a time (those the candidate does not satisfy already)
 		nShaped := 0
@@ -123,7 +159,12 @@ func genericReplay(eng *Engine, ob *Obligation, repo, verif string) (reproduced 
 			t := strings.TrimSuffix(strings.TrimPrefix(l, "(assert "), ")")
 			if v, err := m.s.getValues([]string{t}); err == nil && v[0].String() == "false" {
 				nShaped++
-				m.shape(t)
+				if !m.shape(t) {
+					// range <= 3 is impossible here (e.g. a list that must have 7 members): settle for <= 8
+					if i := strings.LastIndex(t, fmt.Sprintf(" %d)", groundK)); i > 0 {
+						m.shape(t[:i] + " 8)" + t[i+len(fmt.Sprintf(" %d)", groundK)):])
+					}
+				}
 			}
 		}
 		m.wmark = m.getInt("H0_W")
@@ -340,13 +381,15 @@ func replayOutcome(out string) string {
 // obligation was not decided (unknown / timeout: quantified background axioms), z3 with model-based quantifier
 // instantiation switched off stops after E-matching with `unknown` and a CANDIDATE model, which is good enough to try on
 // the real code (only the run decides).
-func openModelSession(ob *Obligation, script, light, looseExtra, smallExtra, prefer string, deadline time.Time) (*smtSession, string, error) {
+func openModelSession(ob *Obligation, script, light, typing, looseExtra, smallExtra, prefer string, deadline time.Time, skip map[string]bool) (*smtSession, string, error) {
 	type cand struct {
 		name      string
 		args      []string
 		candidate bool // accept `unknown` + model
 		short     bool // with the preference for short quantifier ranges
 		small     bool // with the preference for short slices everywhere
+		full      bool // with the quantified lemmas of earlier obligations
+		bare      bool // the obligation's query as it is
 	}
 	exact := []cand{
 		{name: "z3-new", args: []string{"z3-new", "-in"}},
@@ -374,18 +417,28 @@ func openModelSession(ob *Obligation, script, light, looseExtra, smallExtra, pre
 	}
 	// every attempt runs in a fresh solver (a timed-out attempt slows the following ones down a lot): first with the
 	// preferences for short quantifier ranges and small data (cheap when satisfiable), then without
+	// Candidate attempts run ONE AFTER THE OTHER in short time slices (measured on this sandbox: eight z3 processes side by
+	// side turn a 4 s query into a >90 s one); an attempt that is going to succeed normally does so within seconds.
+	// E-matching is chaotic: any addition (typing axioms, ground instances, leaving lemmas out) can turn a 4 s search into a
+	// minutes-long one or vice versa. So: first the bare query, then the helped ones, then the query + typing axioms only.
+	order = append(order, loose...)
+	for _, c := range []cand{loose[1], loose[0]} {
+		c.name += "+bare"
+		c.bare = true
+		order = append(order, c)
+	}
+	for _, c := range []cand{loose[1]} {
+		c.name += "+plain"
+		c.full = true
+		order = append(order, c)
+	}
+	// preferences for small data and short quantifier ranges
 	if strings.TrimSpace(prefer) != "" {
 		p := loose[0]
 		p.name += "+small-data+short-ranges"
 		p.short, p.small = true, true
 		order = append(order, p)
 	}
-	for _, c := range loose[:2] {
-		c.name += "+small-data"
-		c.small = true
-		order = append(order, c)
-	}
-	order = append(order, loose...)
 	// (push 1) right after set-logic selects z3's incremental core, which keeps a candidate model after `unknown`
 	script = strings.Replace(script, "(set-logic ALL)\n", "(set-logic ALL)\n(push 1)\n", 1) + "\n"
 	light = strings.Replace(light, "(set-logic ALL)\n", "(set-logic ALL)\n(push 1)\n", 1) + "\n"
@@ -407,6 +460,15 @@ func openModelSession(ob *Obligation, script, light, looseExtra, smallExtra, pre
 		if c.small {
 			sc = light + smallExtra
 		}
+		if c.candidate && strings.Contains(c.name, "arith.solver=2") {
+			sc = script + looseExtra // this configuration has done better WITH the quantified lemmas
+		}
+		if c.full {
+			sc = script + typing // no ground instances either: the plain query plus facts about the entry heap
+		}
+		if c.bare {
+			sc = script
+		}
 		if c.short {
 			sc += prefer
 		}
@@ -417,7 +479,11 @@ func openModelSession(ob *Obligation, script, light, looseExtra, smallExtra, pre
 			s.close()
 			return nil, err.Error()
 		}
+		t0 := time.Now()
 		r := s.checkSat()
+		if replayDebug {
+			fmt.Fprintf(os.Stderr, "replay: solver %s answered %q after %.1fs\n", c.name, truncate(r, 60), time.Since(t0).Seconds())
+		}
 		if r == "unknown" && !s.incompleteOnly() {
 			r = "unknown (gave up: no usable candidate)"
 		}
@@ -436,6 +502,9 @@ func openModelSession(ob *Obligation, script, light, looseExtra, smallExtra, pre
 	// solvers that can confirm a `sat` answer: one after the other (the first one normally answers at once)
 	var racers []cand
 	for _, c := range order {
+		if skip[c.name] {
+			continue
+		}
 		if c.candidate {
 			racers = append(racers, c)
 			continue
@@ -451,49 +520,28 @@ func openModelSession(ob *Obligation, script, light, looseExtra, smallExtra, pre
 			last = why
 		}
 	}
-	// candidate models: all variants race in parallel (each in its own solver process); the first usable one wins
-	per := time.Until(deadline) - 50*time.Second // keep time for reading the model
-	if per > 75*time.Second {
-		per = 75 * time.Second
-	}
-	if per < 10*time.Second {
-		return nil, "", fmt.Errorf("no time left for a candidate model (%s)", last)
-	}
-	type res struct {
-		s    *smtSession
-		name string
-		why  string
-	}
-	ch := make(chan res, len(racers))
+	// candidate models: sequential time slices; 60 s are kept for reading the model
 	for _, c := range racers {
-		go func(c cand) {
-			s, why := attempt(c, per)
-			ch <- res{s, c.name, why}
-		}(c)
-	}
-	for i := 0; i < len(racers); i++ {
-		r := <-ch
-		if r.s != nil {
-			left := len(racers) - i - 1
-			mu.Lock()
-			for _, s := range started { // stop the losers
-				if s != r.s {
-					go s.close()
-				}
-			}
-			mu.Unlock()
-			go func() {
-				for j := 0; j < left; j++ {
-					if x := <-ch; x.s != nil {
-						x.s.close()
-					}
-				}
-			}()
-			r.s.deadline = deadline
-			return r.s, r.name, nil
+		left := time.Until(deadline) - 60*time.Second
+		if left < 8*time.Second {
+			last += " | no time left for " + c.name
+			break
 		}
-		last += " | " + r.why
+		per := 20 * time.Second
+		if c.full || c.short || c.bare {
+			per = 13 * time.Second
+		}
+		if per > left {
+			per = left
+		}
+		if s, why := attempt(c, per); s != nil {
+			s.deadline = deadline
+			return s, c.name, nil
+		} else {
+			last += " | " + why
+		}
 	}
+	_ = started
 	return nil, "", fmt.Errorf("no solver produced a model or candidate model (%s)", strings.TrimPrefix(last, " | "))
 }
 
